@@ -38,6 +38,10 @@ type corrOut struct {
 	distinct map[string]struct{}
 	samples  []string
 	findings []finding
+	// scope: the properties whose quantifier domain the lines emitted from now on lie in
+	// ("" = every property that uses the stream); written line by line to <stream>.scope
+	scope  string
+	scopeW *bufio.Writer
 }
 
 // finding is a property failure observed directly on the implementation.
@@ -56,17 +60,20 @@ func newCorrOut(dir, stream string) (*corrOut, error) {
 		return nil, err
 	}
 	c := &corrOut{dir: dir, stream: stream, hist: map[string]int{}, distinct: map[string]struct{}{}}
-	for _, suffix := range []string{"ops", "impl"} {
+	for _, suffix := range []string{"ops", "impl", "scope"} {
 		f, err := os.Create(filepath.Join(dir, stream+"."+suffix))
 		if err != nil {
 			return nil, err
 		}
 		c.files = append(c.files, f)
 		w := bufio.NewWriterSize(f, 1<<20)
-		if suffix == "ops" {
+		switch suffix {
+		case "ops":
 			c.ops = w
-		} else {
+		case "impl":
 			c.impl = w
+		default:
+			c.scopeW = w
 		}
 	}
 	return c, nil
@@ -79,6 +86,11 @@ func (c *corrOut) emit(op, impl, bucket string) {
 	}
 	fmt.Fprintln(c.ops, op)
 	fmt.Fprintln(c.impl, impl)
+	if c.scope == "" {
+		fmt.Fprintln(c.scopeW, "*")
+	} else {
+		fmt.Fprintln(c.scopeW, c.scope)
+	}
 	c.count++
 	c.hist[bucket]++
 	if bucket != "trivial" {
@@ -99,6 +111,7 @@ func (c *corrOut) addFinding(f finding) {
 func (c *corrOut) close(extra map[string]interface{}) error {
 	c.ops.Flush()
 	c.impl.Flush()
+	c.scopeW.Flush()
 	for _, f := range c.files {
 		f.Close()
 	}
